@@ -1369,13 +1369,15 @@ impl Exec for VirtualSystem {
             A: AsCStrArray,
             E: AsCStrArray,
         {
-            let os_path = UnixStr::from_bytes(path.to_bytes());
-            let mut state = this.state.borrow_mut();
-            let fs = &state.file_system;
-            let file = match fs.get(os_path) {
+            // The pathname is resolved relative to the working directory like
+            // in any other system call.
+            let os_path = Path::new(UnixStr::from_bytes(path.to_bytes()));
+            let file = match this.resolve_existing_file(AT_FDCWD, os_path, /* follow links */ true)
+            {
                 Ok(file) => file,
                 Err(e) => return ready(Err(e)),
             };
+            let mut state = this.state.borrow_mut();
             // TODO Check file permissions
             let is_executable = matches!(
                 &file.borrow().body,
